@@ -368,8 +368,11 @@ def run(ctx):
         if c["sexp"] is None and c["typeok"] and not (c["eq"] and c["s1"] == c["s2"]):
             ctx.finding("outside-model:" + "+".join(sorted(kinds_in(c["kt"], set())))[:60], "str() round trip fails for %r" % c["text"],
                         {"text": c["text"], "str": c["s1"], "reparsed": c["k2"]})
+    # stage S: string constants at the text level (Model/StrLit.lean, theorem C03_string_roundtrip) -----------------------------------
+    sstats = run_strings(ctx, har, drv3)
     # stage Q: queries on the real library (testing only; outside the Lean model) ----------------------------------------
     qstats = run_queries(ctx, b)
+    qstats["strings"] = sstats
     # verdict ------------------------------------------------------------------------------------------------------------
     if model_bugs:
         ctx.proof_broken("correspondence:printer-model", repr(model_bugs[:3]), "library round trip is fine on those inputs")
@@ -394,6 +397,32 @@ def run(ctx):
         "witnesses whose expression the type checker rejects (e.g. `(a + b)'`) are computed and proved but are not violations of the property, "
         "which speaks about accepted expressions",
     ]
+
+
+def run_strings(ctx, har, drv):
+    """values -> the text the model's printer writes (drv_c03 STR) -> the real parser's constant and the real str() of it"""
+    r = ctx.rng
+    alpha = "abcXYZ019 _./\\\\\\:-+*(){}#'?,;=<>&|!%^~[]@$"
+    vals = ["a", "abc", "C:\\dir\\f.json", "\\", "\\\\", "a\\", "\\a", "x y", "/* c */", "// c", "a'b", "1e5"]
+    for _ in range(300 if not ctx.thorough else 5000):
+        vals.append("".join(r.choice(alpha) for _ in range(r.randint(1, 12))))
+    _, mo, _ = c02.run_lines(drv, ["STR\t" + v.encode().hex() for v in vals])
+    texts = [m.split("\t")[0] if "\t" in m else None for m in mo]
+    _, ho, _ = c02.run_lines(har, ["Q\t" + (t or '"x"') for t in texts])
+    st = {"values": len(vals), "with_backslash": sum(1 for v in vals if "\\" in v), "disagreements": 0}
+    for v, m, t, h in zip(vals, mo, texts, ho):
+        f = h.split("\t")
+        ok_model = m.endswith("\tVALUE " + v)
+        ok_lib = len(f) >= 5 and f[0] == "(CONSTANT string %s)" % v and f[1] == t and f[3] == "equal" and f[4] == t
+        if ok_model and ok_lib:
+            continue
+        st["disagreements"] += 1
+        if not ok_model:
+            ctx.proof_broken("C03_string_roundtrip", "the model does not read %r back from %r: %s" % (v, t, m), "library: %s" % h[:200])
+        else:
+            ctx.finding("literal:string-roundtrip", "string constant %r: the model's printer writes %s and reads it back; the library gives %s" % (v, t, h[:300]),
+                        {"text": t, "value": v, "observed": h, "model": m})
+    return st
 
 
 def run_queries(ctx, b):
